@@ -47,6 +47,28 @@ theorem source_forms_modelled :
     FV.Gen.C07.funsorCopyForm = "return self" := by
   refine ⟨?_, ?_, ?_, ?_, ?_⟩ <;> rfl
 
+/-- The op instance cache is keyed by the tuple `(args, kwargs items)` itself (compared with `==`
+    by the dict), looked up and inserted as the model's `construct` does; `ReshapeMeta` only
+    turns the shape into a tuple first. -/
+theorem op_source_forms_modelled :
+    FV.Gen.C07.opHashForm = "return (args, tuple(kwargs.items()))" ∧
+    FV.Gen.C07.opCallForm =
+      "args = (None,) * cls.arity + args ;; bound = cls.signature.bind_partial(*args, **kwargs) ;; bound.apply_defaults() ;; args = bound.args[cls.arity:] ;; kwargs = bound.kwargs ;; key = cls.hash_args_kwargs(args, kwargs) ;; op = cls._instance_cache.get(key, None) ;; if op is None: op = cls._instance_cache[key] = super().__call__(*args, **kwargs) ;; return op" ∧
+    FV.Gen.C07.reshapeHashForm =
+      "assert not kwargs ;; if args: shape, = args shape = tuple(shape) args = (shape,) ;; return super().hash_args_kwargs(args, kwargs)" := by
+  refine ⟨?_, ?_, ?_⟩ <;> rfl
+
+/-- Hash-equal is not key-equal: `SumOp(axis=-1)` and `SumOp(axis=-2)` have different keys,
+    `SumOp(1)`, `SumOp(1.0)`, `SumOp(True)` have the same. -/
+theorem op_key_eq_not_hash :
+    ((splitTop [.int (-1), .bool false] >>= normArgs "OpMeta").map List.flatten >>= mkKey) ≠
+    ((splitTop [.int (-2), .bool false] >>= normArgs "OpMeta").map List.flatten >>= mkKey) ∧
+    ((splitTop [.int 1, .bool false] >>= normArgs "OpMeta").map List.flatten >>= mkKey) =
+    ((splitTop [.flt 1 1, .int 0] >>= normArgs "OpMeta").map List.flatten >>= mkKey) ∧
+    ((splitTop [.lp, .int (-1), .rp] >>= normArgs "ReshapeMeta").map List.flatten >>= mkKey) ≠
+    ((splitTop [.lp, .int (-2), .rp] >>= normArgs "ReshapeMeta").map List.flatten >>= mkKey) := by
+  decide
+
 /-- The metaclasses whose `__call__` the model normalises are the ones the table reports. -/
 theorem table_metaclasses_modelled :
     ∀ e ∈ FV.Gen.C07.classes,
@@ -55,6 +77,10 @@ theorem table_metaclasses_modelled :
       (e.name = "funsor.terms.Slice" → e.mcls = "SliceMeta") ∧
       (e.name = "funsor.terms.Cat" → e.mcls = "CatMeta") ∧
       (e.name = "funsor.terms.Subs" → e.mcls = "SubsMeta") ∧
+      (e.name = "funsor.ops.ReshapeOp" → e.mcls = "ReshapeMeta") ∧
+      (e.name ∈ ["funsor.ops.SumOp", "funsor.ops.AmaxOp", "funsor.ops.ProdOp", "funsor.ops.ArgmaxOp",
+                 "funsor.ops.UnsqueezeOp", "funsor.ops.StackOp", "funsor.ops.GetitemOp"] →
+        e.mcls = "OpMeta") ∧
       (e.name ∈ ["funsor.terms.Variable", "funsor.terms.Unary", "funsor.terms.Binary",
                  "funsor.terms.Reduce", "funsor.terms.Lambda", "funsor.terms.Align",
                  "funsor.terms.Stack", "funsor.terms.Tuple"] → e.mcls = "FunsorMeta") := by
